@@ -46,25 +46,48 @@ def main():
         old = json.load(open(path, encoding="utf-8"))
     keep = [f for f in old["findings"] if f.get("status") == "fixed" or f.get("manual")]
     out = list(keep)
-    for pp in sorted(glob.glob(os.path.join(env.VERIF, "baseline", "*.proposed.json"))):
-        d = json.load(open(pp, encoding="utf-8"))
-        prop = d["property"]
+    from vf import findings
+    from vf import universe as U
+
+    for bp in sorted(glob.glob(os.path.join(env.VERIF, "baseline", "*.json.gz"))):
+        name = os.path.basename(bp)[: -len(".json.gz")]
+        b = findings.load_baseline(name)
+        prop = name
+        counts, best = {}, {}
+        for case, sig in b["map"].items():
+            for a in findings.atoms(sig):
+                counts[a] = counts.get(a, 0) + 1
+            if case[0] == "Z" and case[1].isdigit():
+                doc = U.case_doc(case)
+                for a in findings.atoms(sig):
+                    if a not in best or len(doc) < len(best[a][1]):
+                        best[a] = (case, doc)
+        prop_file = os.path.join(env.VERIF, "baseline", name + ".proposed.json")
+        proposed = json.load(open(prop_file, encoding="utf-8"))["witness"] if os.path.exists(prop_file) else {}
         n = 0
-        for sig, w in sorted(d["witness"].items()):
+        for sig in sorted(counts):
             n += 1
-            det = w["detail"] if isinstance(w["detail"], dict) else {}
-            if "doc" in det and "history" not in det and "files" not in det and not str(det.get("case", "")).startswith(("K:", "F:", "E:", "S:", "X:", "D:", "H:", "P:", "SUB")):
-                wit = {"doc": det["doc"]}
-                if det.get("fm") is not None:
-                    wit["fm"] = det["fm"]
-                eg = short(det["doc"])
-            elif "history" in det:
-                wit = {"history": det["history"]}
-                eg = "history " + short(det["history"])
+            if sig in best:
+                wit = {"case": best[sig][0], "doc": best[sig][1]}
+                eg = short(best[sig][1])
+            elif sig in proposed:
+                det = proposed[sig]["detail"] if isinstance(proposed[sig]["detail"], dict) else {}
+                if "history" in det:
+                    wit = {"history": det["history"]}
+                    eg = "history " + short(det["history"])
+                elif "doc" in det and not str(det.get("case", "")).startswith(("K:", "F:", "E:", "S:", "X:", "D:", "H:", "P:", "SUB")):
+                    wit = {"doc": det["doc"]}
+                    if det.get("fm") is not None:
+                        wit["fm"] = det["fm"]
+                    eg = short(det["doc"])
+                else:
+                    c = det.get("case", proposed[sig]["case"])
+                    wit = {"case": c}
+                    extra = det.get("descr") or det.get("scenario") or det.get("label") or det.get("args") or det.get("pragma") or ""
+                    eg = "case " + short(c, 40) + ((" " + short(extra, 110)) if extra else "")
             else:
-                c = det.get("case", w["case"])
-                wit = {"case": c}
-                eg = "case " + short(c) + (" " + short(det.get("descr") or det.get("scenario") or det.get("label") or det.get("args") or "", 100))
+                print("no witness for", prop, sig)
+                continue
             out.append({
                 "id": f"{prop}-{n:03d}",
                 "property": prop,
@@ -72,7 +95,7 @@ def main():
                 "signature": sig,
                 "what_fails": TEMPLATES[prop].format(sig=sig) + " — e.g. " + eg,
                 "witness": wit,
-                "inputs_in_frozen_universe": d["counts"].get(sig, 0),
+                "inputs_in_frozen_universe": counts[sig],
             })
     json.dump({"note": "known = genuine defect of the pinned tree, recorded not repaired (see DESIGN.md); fixed = repaired by the named fix: commit, suppresses nothing",
                "findings": out}, open(path, "w", encoding="utf-8"), indent=1, ensure_ascii=False)
